@@ -33,10 +33,10 @@ ScenarioWhys(r) ==
                         /\ ~\E h \in P : h.p # q.p /\ Acquired(h) /\ Overlap(h.spawn_ts, h.exit_ts, q.spawn_ts, q.exit_ts) } }
 
 \* waited for the lock: reached its acquisition attempt while another invocation definitely held the lock for at least
-\* another half second (the harness reports the duration; the bind itself takes microseconds), and still acquired
+\* another two seconds (the harness reports the duration; the bind itself takes microseconds), and still acquired
 Queued(r) ==
   { "C14:an invocation that tried to acquire while another held the lock waited for it instead of failing" :
-      p \in { q \in RangeOf(r.procs) : Acquired(q) /\ q.held_after_try_ms >= 500 } }
+      p \in { q \in RangeOf(r.procs) : Acquired(q) /\ q.held_after_try_ms >= 2000 } }
 
 VARIABLE l
 Init == l = 1
